@@ -58,6 +58,9 @@ type Parser struct {
 	curToken  token.Token
 	peekToken token.Token
 
+	// aheadToken is the token after peekToken when it was already read
+	aheadToken *token.Token
+
 	prefixParseFns map[token.TokenType]prefixParseFn
 	infixParseFns  map[token.TokenType]infixParseFn
 
@@ -272,7 +275,24 @@ func (p *Parser) newError(line uint, msg string, args ...any) {
 
 func (p *Parser) nextToken() {
 	p.curToken = p.peekToken
+
+	if p.aheadToken != nil {
+		p.peekToken = *p.aheadToken
+		p.aheadToken = nil
+		return
+	}
+
 	p.peekToken = p.l.NextToken()
+}
+
+// peekAheadToken returns the token after peekToken without consuming anything
+func (p *Parser) peekAheadToken() token.Token {
+	if p.aheadToken == nil {
+		tok := p.l.NextToken()
+		p.aheadToken = &tok
+	}
+
+	return *p.aheadToken
 }
 
 func (p *Parser) parseIdentifier() ast.Expression {
@@ -516,14 +536,11 @@ func (p *Parser) parseComponentStmt() ast.Statement {
 		p.nextToken() // skip ")"
 		stmt.Slots = p.parseSlots()
 		hasSlots = true
-	} else if p.peekTokenIs(token.HTML) && isWhitespace(p.peekToken.Literal) {
+	} else if p.peekTokenIs(token.HTML) && isWhitespace(p.peekToken.Literal) && p.peekAheadToken().Type == token.SLOT {
 		p.nextToken() // skip ")"
-
-		if p.peekTokenIs(token.SLOT) {
-			p.nextToken() // skip whitespace
-			stmt.Slots = p.parseSlots()
-			hasSlots = true
-		}
+		p.nextToken() // skip whitespace
+		stmt.Slots = p.parseSlots()
+		hasSlots = true
 	}
 
 	// a component with slots is closed by its own "@end"
